@@ -13,16 +13,16 @@ import (
 
 // NodeOpts selects per-incarnation options.
 type NodeOpts struct {
-	Conf      func(c *raft.Config) // adjust the config (timeouts etc.)
-	Batching  bool                 // FSM implements BatchingFSM
-	ConfStore bool                 // FSM implements ConfigurationStore
-	Notify    bool                 // wire Config.NotifyCh
-	Pipeline  bool                 // transport supports AppendEntriesPipeline
-	HBFast    bool                 // transport uses the heartbeat fast path
-	NoPreVote bool                 // transport does not implement WithPreVote
-	ApplyDelay time.Duration       // FSM.Apply takes this long (virtual)
+	Conf         func(c *raft.Config) // adjust the config (timeouts etc.)
+	Batching     bool                 // FSM implements BatchingFSM
+	ConfStore    bool                 // FSM implements ConfigurationStore
+	Notify       bool                 // wire Config.NotifyCh
+	Pipeline     bool                 // transport supports AppendEntriesPipeline
+	HBFast       bool                 // transport uses the heartbeat fast path
+	NoPreVote    bool                 // transport does not implement WithPreVote
+	ApplyDelay   time.Duration        // FSM.Apply takes this long (virtual)
 	PersistDelay time.Duration
-	LogOutput io.Writer
+	LogOutput    io.Writer
 }
 
 // Instance is one incarnation (process lifetime) of a server.
